@@ -56,7 +56,8 @@ Record flush_wf (g : cfg) (live : list lrow) (objs : list obj_st) (ents : list e
   fw_nodup : NoDup (map (ev_id g) ents);
   fw_cls : forall e, In e ents -> (e_cls e < length (g_classes g))%nat;
   fw_kind : forall e, In e ents -> e_kind e = OP_INS \/ e_kind e = OP_UPD \/ e_kind e = OP_DEL;
-  fw_switch : forall e, In e ents -> (e_kind e =? OP_UPD) && e_isnew e = false;
+  (* every flushed object is up to date when its event is applied (no row switch, no stale object) *)
+  fw_fresh : all_fresh g live ents;
   fw_ins : forall e, In e ents -> e_kind e = OP_INS -> find_live live (e_cls e) (ev_key g e) = None;
   (* an update whose versioned data differs from the stored row is seen as modified *)
   fw_upd : forall e, In e ents -> e_kind e = OP_UPD -> k_versioned (cls_of g (e_cls e)) = true ->
@@ -395,8 +396,7 @@ Section FlushC01.
     intros c k Hc Hver. apply c01_rel_unfold. rewrite Elive.
     pose proof (proj1 (c01_rel_unfold g _ _ c k) (I4 c k Hc Hver)) as Hold.
     set (cc := cls_of g c) in *. set (K := k_tab cc :: k) in *.
-    assert (Hsw : forall e, In e ents -> (e_kind e =? OP_UPD) && e_isnew e = false)
-      by (apply (fw_switch _ _ _ _ WF)).
+    pose proof (fw_fresh _ _ _ _ WF) as Hsw.
     (* is there an event for (c,k) in this flush? *)
     destruct (find (is_ev g c k) ents) as [e|] eqn:Fe.
     - apply find_some in Fe as [He Hev].
